@@ -123,6 +123,15 @@ def _expr_strategy(allow_cn):
     return st.recursive(st.one_of(atom, site(atom)), extend, max_leaves=6).filter(valid)
 
 
+def _ok_in_class_body(e):
+    try:
+        compile("def _t(x, v, acc):\n    class _C:\n        val = "
+                + number(e, [0]).replace("{REC}", "r").replace("{CN}", "c"), "<g>", "exec")
+        return True
+    except SyntaxError:
+        return False
+
+
 def case_strategy():
     from hypothesis import strategies as st
 
@@ -132,8 +141,11 @@ def case_strategy():
         nst = draw(st.integers(1, 4))
         stmts = []
         for _ in range(nst):
-            kind = draw(st.sampled_from(["append", "append", "append", "try", "nested", "assign", "if"]))
+            kind = draw(st.sampled_from(["append", "append", "append", "try", "nested", "assign", "if",
+                                         "localclass", "classbody"]))
             e = draw(expr_strategy(allow_cn=False))
+            if kind == "classbody" and not _ok_in_class_body(e):
+                kind = "localclass"  # (a walrus inside a comprehension is not allowed directly in a class body)
             stmts.append([kind, e])
         hi = [[draw(st.sampled_from(["append", "append", "try"])), draw(expr_strategy(allow_cn=True))]
               for _ in range(draw(st.integers(0, 2)))]
@@ -180,6 +192,11 @@ def render_stmt(kind, e, ind):
         return [f"{ind}try:", f"{ind}    acc.append({e})", f"{ind}finally:", f"{ind}    acc.append(_P(90, 'fin'))"]
     if kind == "nested":
         return [f"{ind}def inner(q=0):", f"{ind}    return {e}", f"{ind}acc.append(inner())"]
+    if kind == "localclass":  # the site sits in a method of a class statement local to the method
+        return [f"{ind}class _Loc:", f"{ind}    def run(self_, q=0):", f"{ind}        return {e}",
+                f"{ind}acc.append(_Loc().run())"]
+    if kind == "classbody":  # ... or directly in the body of such a class
+        return [f"{ind}class _Loc2:", f"{ind}    val = {e}", f"{ind}acc.append(_Loc2.val)"]
     if kind == "assign":
         return [f"{ind}v = {e}", f"{ind}acc.append(v)"]
     if kind == "if":
@@ -423,7 +440,7 @@ def run_case(spec):
             return res
         text = real["src"]
         nsites = text.count("recurse(") + text.count("call_next(")
-        ctx = sorted({c for c in ("for _i", "lambda", "if ", "f'<", ":=", "**{", "*[", "def inner", "try:", "yield",
+        ctx = sorted({c for c in ("for _i", "lambda", "if ", "f'<", ":=", "**{", "*[", "def inner", "class _Loc:", "class _Loc2:", "try:", "yield",
                                   "_L(", " and ", " or ", "k=") if c in text})
         for c in ctx:
             res.label("ctx:" + c.strip())
